@@ -343,6 +343,7 @@ struct Global {
   bool replay_verbose = false;
   FILE *out = nullptr;
   bool diverged = false;
+  bool hang = false;  // an execution stopped reaching scheduling points while burning CPU (watchdog)
   std::vector<Violation> viols;       // all violations of the whole exploration (deduplicated)
   std::vector<std::string> exec_notes;
   int exec_viol_count = 0;
@@ -867,7 +868,36 @@ RunOnce(const std::vector<uint8_t> &prefix)
   int first = Choose(-1);
   if (first >= 0) {
     WakeThread(G.th[first]);
-    while (G.done.load(std::memory_order_seq_cst) == 0) Futex(&G.done, FUTEX_WAIT_PRIVATE, 0);
+    // watchdog: a virtual thread that loops in plain code (e.g. over plain data another thread corrupted) never comes
+    // back to the scheduler. The measure is the CPU time this process burns without reaching a scheduling point --
+    // executions normally take well under a millisecond, waiting threads burn nothing, and a loaded machine does not
+    // make CPU time pass faster.
+    auto cpu_now = [] {
+      timespec ts{};
+      clock_gettime(CLOCK_PROCESS_CPUTIME_ID, &ts);
+      return static_cast<double>(ts.tv_sec) + 1e-9 * static_cast<double>(ts.tv_nsec);
+    };
+    uint64_t s_last = __atomic_load_n(&G.steps, __ATOMIC_RELAXED);
+    double c_last = cpu_now();
+    while (G.done.load(std::memory_order_seq_cst) == 0) {
+      timespec to{1, 0};
+      syscall(SYS_futex, reinterpret_cast<int *>(&G.done), FUTEX_WAIT_PRIVATE, 0, &to, nullptr, 0);
+      if (G.done.load(std::memory_order_seq_cst) != 0) break;
+      const uint64_t s_now = __atomic_load_n(&G.steps, __ATOMIC_RELAXED);
+      if (s_now != s_last) {
+        s_last = s_now;
+        c_last = cpu_now();
+      } else if (cpu_now() - c_last > G.cfg.hang_cpu_s) {
+        G.hang = true;
+        RecordViolation(DeadlockProps().c_str(), "HANG",
+                        "an execution burnt " + std::to_string(static_cast<int>(G.cfg.hang_cpu_s)) +
+                            " s of CPU time without reaching a scheduling point (a loop without any atomic operation, e.g. over "
+                            "corrupted plain data):" + DescribeStuck(),
+                        true);
+        G.fatal = true;
+        break;
+      }
+    }
   }
   if (G.done.load() == 2 || G.fatal) {
     // the threads of this execution are parked for ever (deadlock / crash / horizon): abandon them
@@ -1292,6 +1322,7 @@ Explore(const Scenario &scn, const Config &cfg)
   Result res;
   Prepare(scn, cfg);
   G.abandoned = 0;
+  G.hang = false;
   const double t0 = Now();
   G.replay_verbose = false;
   G.out = nullptr;
@@ -1325,7 +1356,7 @@ Explore(const Scenario &scn, const Config &cfg)
       res.steps += G.steps;
       res.max_trace = std::max<uint64_t>(res.max_trace, G.trace.size());
       if (G.any_blocked) ++res.blocked_execs;
-      if (!ok && (G.diverged || G.abandoned > static_cast<uint64_t>(cfg.max_abandoned))) {
+      if (!ok && (G.diverged || G.hang || G.abandoned > static_cast<uint64_t>(cfg.max_abandoned))) {
         complete = false;
         stop_all = true;
         break;  // too many stuck executions (each leaks its parked threads) or an internal error
